@@ -662,10 +662,13 @@ func ext۰reflect۰Value۰Pointer(fr *frame, args []value) value {
 	// Signature: func (v reflect.Value) uintptr
 	switch v := rV2V(args[0]).(type) {
 	case *value:
-		return uintptr(unsafe.Pointer(v))
+		return cellAddr(v)
 	case chan value:
 		return reflect.ValueOf(v).Pointer()
 	case []value:
+		if cap(v) > 0 {
+			return cellAddr(&v[:1][0])
+		}
 		return reflect.ValueOf(v).Pointer()
 	case *omap:
 		return uintptr(unsafe.Pointer(v))
@@ -1090,4 +1093,29 @@ func copyVal(v value) value {
 		return iface{t: v.t, v: copyVal(v.v)}
 	}
 	return v
+}
+
+// cellAddr is the address Go would report for a pointer to this cell: a
+// struct shares its address with its first field, an array with its first
+// element (so that &s and &s.first compare equal as uintptrs, as they do
+// natively).
+func cellAddr(p *value) uintptr {
+	for p != nil {
+		switch agg := (*p).(type) {
+		case structure:
+			if len(agg) == 0 {
+				return uintptr(unsafe.Pointer(p))
+			}
+			p = &agg[0]
+			continue
+		case array:
+			if len(agg) == 0 {
+				return uintptr(unsafe.Pointer(p))
+			}
+			p = &agg[0]
+			continue
+		}
+		break
+	}
+	return uintptr(unsafe.Pointer(p))
 }
